@@ -6,7 +6,7 @@
 set -u
 WT=$1; OUT=$2; TIER=$3; shift 3
 mkdir -p "$OUT"
-CP=$(mktemp -d /tmp/mut/verifcp-XXXXXX)
+mkdir -p /tmp/mut; CP=$(mktemp -d /tmp/mut/verifcp-XXXXXX)
 rsync -a --exclude harness/target/cases --exclude 'fuzz/target' --exclude .git /verif/ "$CP/"
 sed -i "s#path = \"/repo\"#path = \"$WT\"#" "$CP/harness/Cargo.toml" "$CP/fuzz/Cargo.toml"
 cd "$CP" || exit 2
